@@ -78,13 +78,13 @@ var storeSpecs = []storeSpec{
 			"GetHighestWrkChainID", "SetHighestWrkChainID", "SetWrkChain", "IsWrkChainRegistered", "GetWrkChain", "IterateWrkChains", "GetAllWrkChains",
 			"HasWrkChainStorageLimit", "GetWrkChainStorageLimit", "SetWrkChainStorageLimit",
 			"SetWrkChainBlock", "IsWrkChainBlockRecorded", "GetWrkChainBlock", "IterateWrkChainBlockHashes", "IterateWrkChainBlockHashesPaginated", "IterateWrkChainBlockHashesReverse",
-			"GetAllWrkChainBlockHashes", "GetLastWrkChainHeightInState", "deleteWrkChainHash"}},
+			"GetAllWrkChainBlockHashes", "GetLastWrkChainHeightInState", "GetAllWrkChainBlockHashesForGenesisExport", "deleteWrkChainHash"}},
 	{module: "beacon", files: []string{"register.go", "record.go", "params.go"}, typesMod: "GeneratedBeaconTypes", keepMod: "GeneratedBeaconKeeper", valCtor: "BV",
 		want: []string{"GetParams", "SetParams", "GetParamDenom", "GetParamRegistrationFee", "GetParamRecordFee", "GetParamPurchaseStorageFee", "GetParamDefaultStorageLimit", "GetParamMaxStorageLimit",
 			"GetHighestBeaconID", "SetHighestBeaconID", "SetBeacon", "IsBeaconRegistered", "GetBeacon", "IterateBeacons", "GetAllBeacons",
 			"HasBeaconStorageLimit", "GetBeaconStorageLimit", "SetBeaconStorageLimit",
 			"SetBeaconTimestamp", "IsBeaconTimestampRecordedByID", "GetBeaconTimestampByID", "IterateBeaconTimestamps", "IterateBeaconTimestampsReverse",
-			"GetAllBeaconTimestamps", "deleteBeaconTimestamp"}},
+			"GetAllBeaconTimestamps", "GetAllBeaconTimestampsForExport", "deleteBeaconTimestamp"}},
 }
 
 func init() {
@@ -233,6 +233,11 @@ func (t *stTrans) goType(e ast.Expr) stKind {
 		return skList(t.goType(at.Elt))
 	}
 	n := exprName(e)
+	if _, isId := e.(*ast.Ident); isId {
+		if _, ok := structTable[n]; ok {
+			return skStruct(n) // a type of package types named from inside that package (element of a named slice type)
+		}
+	}
 	if strings.HasPrefix(n, "types.") {
 		nm := strings.TrimPrefix(n, "types.")
 		if _, ok := structTable[nm]; ok {
@@ -350,7 +355,7 @@ func (t *stTrans) expr(e ast.Expr) (pre []stBind, val string, k stKind) {
 		n := exprName(x)
 		if strings.HasPrefix(n, "types.") {
 			nm := strings.TrimPrefix(n, "types.")
-			if nm == "DefaultStorageLimit" || nm == "MaxBlockSubmissionsKeepInState" {
+			if nm == "DefaultStorageLimit" || nm == "MaxBlockSubmissionsKeepInState" || nm == "MaxHashSubmissionsToExport" {
 				return nil, "store_const_" + nm, skZ
 			}
 			return nil, t.spec.module + "_" + nm, skBytes // a prefix / fixed key of keys.go
@@ -518,6 +523,11 @@ func (t *stTrans) call(c *ast.CallExpr) (pre []stBind, val string, k stKind) {
 			extra += " (Z.to_N " + va + ")"
 		}
 		return append(p, stBind{x, "(" + op + " s " + v + extra + ")"}), x, skIter
+	case n == "prependBlock" || n == "prependTimestamp":
+		// keeper-local helper: x = append(x, y); copy(x[1:], x); x[0] = y  ==  y in front of x
+		pa, va, ka := t.expr(c.Args[0])
+		pb, vb, _ := t.expr(c.Args[1])
+		return append(pa, pb...), "(store_prepend " + va + " " + vb + ")", ka
 	case n == "sdk.NewInt64Coin":
 		pa, va, _ := t.expr(c.Args[0])
 		pb, vb, _ := t.expr(c.Args[1])
